@@ -83,7 +83,7 @@ var emittedStructs = map[string]bool{}
 
 func (p *pkg) emitTypes() string {
 	var b strings.Builder
-	b.WriteString("(* Generated from the struct declarations of /repo by go/gen on every run. Do not edit.\n   One record per Go struct, fields in declaration order: integers are Z, []byte and string are\n   list Z, *T is option T, []*T / []T are list T, time.Time / time.Duration are Z. *)\nFrom Coq Require Import ZArith List.\nImport ListNotations.\nOpen Scope Z_scope.\n\n")
+	b.WriteString("(* Generated from the struct declarations of /repo by go/gen on every run. Do not edit.\n   One record per Go struct, fields in declaration order: integers are Z, []byte and string are\n   list Z, *T is option T, []*T / []T are list T, time.Time / time.Duration are Z. *)\nFrom Coq Require Import ZArith List.\nRequire Import Base.Tok.\nImport ListNotations.\nOpen Scope Z_scope.\n\n")
 	known := map[string]bool{}
 	names := append([]string(nil), p.sorder...)
 	sort.Strings(names)
@@ -117,11 +117,83 @@ func (p *pkg) emitTypes() string {
 				continue
 			}
 			fmt.Fprintf(&b, "Record %s := mk_%s {\n  %s\n}.\n", n, n, strings.Join(fields, ";\n  "))
-			fmt.Fprintf(&b, "Definition zero_%s : %s := {|\n  %s\n|}.\n\n", n, n, strings.Join(zeros, ";\n  "))
+			fmt.Fprintf(&b, "Definition zero_%s : %s := {|\n  %s\n|}.\n", n, n, strings.Join(zeros, ";\n  "))
+			var totok, oftok []string
+			idx := 0
+			for _, f := range st.Fields.List {
+				for _, id := range f.Names {
+					totok = append(totok, p.toTok(f.Type, fmt.Sprintf("(%s_%s v)", n, id.Name)))
+					oftok = append(oftok, fmt.Sprintf("%s_%s := %s", n, id.Name, p.ofTok(f.Type, fmt.Sprintf("(tnth %d t)", idx))))
+					idx++
+				}
+			}
+			fmt.Fprintf(&b, "Definition tok_of_%s (v : %s) : tok := TL [\n  %s\n].\n", n, n, strings.Join(totok, ";\n  "))
+			fmt.Fprintf(&b, "Definition %s_of_tok (t : tok) : %s := {|\n  %s\n|}.\n\n", n, n, strings.Join(oftok, ";\n  "))
 			known[n] = true
 			progress = true
 		}
 	}
 	emittedStructs = known
 	return b.String()
+}
+
+// toTok renders the Coq expression converting a field value to a tok.
+func (p *pkg) toTok(e ast.Expr, v string) string {
+	switch e := e.(type) {
+	case *ast.Ident:
+		if _, _, ok := p.intType(e.Name); ok {
+			return "TI " + v
+		}
+		switch e.Name {
+		case "bool":
+			return "of_bool " + v
+		case "string":
+			return "TB " + v
+		}
+		return "tok_of_" + e.Name + " " + v
+	case *ast.StarExpr:
+		return "of_opt (fun x => " + p.toTok(e.X, "x") + ") " + v
+	case *ast.ArrayType:
+		if id, ok := e.Elt.(*ast.Ident); ok && (id.Name == "byte" || id.Name == "uint8") {
+			return "TB " + v
+		}
+		elt := e.Elt
+		if s, ok := elt.(*ast.StarExpr); ok {
+			elt = s.X
+		}
+		return "of_list (fun x => " + p.toTok(elt, "x") + ") " + v
+	case *ast.SelectorExpr:
+		return "TI " + v
+	}
+	return "?"
+}
+
+func (p *pkg) ofTok(e ast.Expr, t string) string {
+	switch e := e.(type) {
+	case *ast.Ident:
+		if _, _, ok := p.intType(e.Name); ok {
+			return "tI " + t
+		}
+		switch e.Name {
+		case "bool":
+			return "tbool " + t
+		case "string":
+			return "tB " + t
+		}
+		return e.Name + "_of_tok " + t
+	case *ast.StarExpr:
+		return "to_opt (fun x => " + p.ofTok(e.X, "x") + ") " + t
+	case *ast.ArrayType:
+		if id, ok := e.Elt.(*ast.Ident); ok && (id.Name == "byte" || id.Name == "uint8") {
+			return "tB " + t
+		}
+		elt := e.Elt
+		if s, ok := elt.(*ast.StarExpr); ok {
+			elt = s.X
+		}
+		return "to_list (fun x => " + p.ofTok(elt, "x") + ") " + t
+	case *ast.SelectorExpr:
+		return "tI " + t
+	}
+	return "?"
 }
